@@ -547,6 +547,15 @@ def rangeList (start stop step : Int) : List Int :=
 def sliceSpec {α : Type} (l : List α) (a b c : Int) : List α :=
   (rangeList a b c).filterMap (fun p => if p < 0 then none else l[p.toNat]?)
 
+/-- the parameter region (after Slice_Arg: `0 ≤ a, b ≤ n`) in which the FORWARD walk of a Slice over an iterable of `n`
+    items is right whatever the underlying iterable does with a `Terminal` cursor: the stepping lands exactly on
+    Terminal and `stop` (positive step) / `start` (negative step) does not cut anything off -/
+def SliceRegionFwd (n a b c : Int) : Prop :=
+  (c > 0 ∧ (a = n ∨ ((n - a) % c = 0 ∧ n - c < b))) ∨ (c < 0 ∧ (b = 0 ∨ (b % (-c) = 0 ∧ a ≤ -c - 1))) ∨ c = 0
+/-- … and the region in which the BACKWARD walk is right -/
+def SliceRegionBwd (n a b c : Int) : Prop :=
+  (c > 0 ∧ (b = 0 ∨ (b % c = 0 ∧ a = c - 1))) ∨ (c < 0 ∧ (a = n ∨ ((n - a) % (-c) = 0 ∧ b = n - (-c) + 1))) ∨ c = 0
+
 /-- tuples of the inputs' elements, up to the shortest input -/
 def zipLists {α : Type} : List (List α) → List (List α)
   | [] => []
